@@ -11,6 +11,7 @@ The predicate of the property is `Spec.c08Holds` (Spec/Cors.lean); the driver ev
 real observation, `C08_spec` proves it of the model's outcome.
 -/
 import Restful.Lemmas.Cors
+import Restful.Lemmas.StateShape
 namespace Restful
 namespace Props
 open Str Cors
@@ -138,6 +139,12 @@ example :
     corsOut toLowerAscii env { pred := some f, allowedDomains := ["http://other.example".toList] } tbl rq =
       some ⟨[(hAllowOrigin, "http://MiXed.example".toList)], true⟩ := by
   decide
+
+/-! The frame condition (Lemmas/StateShape.lean): the code has exactly the state this property's model
+    accounts for — no further package-level variable, struct type or field; constants as modelled. -/
+-- also: Restful.StateShape.globals_shape
+-- also: Restful.StateShape.consts_shape
+-- also: Restful.StateShape.cors_shape
 
 end Props
 end Restful
